@@ -866,7 +866,15 @@ def b19_equiv_is_guarded_by_the_kind(ctx) -> None:
             n += 1
 
             def kind_test(e) -> bool:
-                return isinstance(e, ast.Call) and norm(e.func) == "isinstance" and len(e.args) == 2 and norm(e.args[0]) == other
+                # the kind of the *other* constructor is compared with the kind of this one
+                return isinstance(e, ast.Call) and norm(e.func) == "isinstance" and len(e.args) == 2 and norm(e.args[0]) == other \
+                    and not any(isinstance(x, ast.Name) and x.id == other for x in ast.walk(e.args[1]))
+            selfkind = [x for x in ast.walk(first) if isinstance(x, ast.Call) and norm(x.func) == "isinstance" and len(x.args) == 2 and norm(x.args[0]) == other
+                        and any(isinstance(y, ast.Name) and y.id == other for y in ast.walk(x.args[1]))]
+            if selfkind:
+                ctx.violation("B19", selfkind[0], f"{m.qualname} tests `{norm(selfkind[0])}`: the other constructor is compared with its own type, which is always true -- a {cls.name} "
+                              "is declared equivalent to any constructor with compatible parameters, and the matcher pairs a union with a product")
+                continue
             if kind_test(first) or (isinstance(first, ast.BoolOp) and isinstance(first.op, ast.And) and any(kind_test(x) for x in first.values)):
                 ctx.ok("B19", f"{m.qualname}: the kind test is a conjunct of the whole answer")
             elif isinstance(first, ast.BoolOp) and isinstance(first.op, ast.Or) and any(kind_test(y) for x in first.values for y in ast.walk(x)):
@@ -884,6 +892,36 @@ def b19_equiv_is_guarded_by_the_kind(ctx) -> None:
                     raise AnalysisError(f"B19: {m.qualname} answers `{norm(first)[:60]}`, where the kind test is not found")
     if n < 4:
         ctx.floor("B19", 99)
+
+
+def b20_each_side_walks_its_own_chain(ctx) -> None:
+    """`Isomorphism._get_eq_descendant` follows the equivalence rules of the two specifications
+    side by side, one loop per side.  Everything a loop reads -- its rule, its table of rules,
+    the list of nodes it has met -- belongs to that side."""
+    P = ctx.P
+    m = P.need_method("Isomorphism", "_get_eq_descendant", own=True)
+    f = m.node
+    ctx.analysed(m)
+    ps = [p_ for p_ in m.params() if p_ != "self"]
+    if len(ps) != 2:
+        raise AnalysisError("B20: _get_eq_descendant(node1, node2) expected")
+    seeds = {ps[0]: 1, ps[1]: 2}
+    attr_sides = {"_rules1": 1, "_rules2": 2}
+    loops = [l for l in walk_local(f) if isinstance(l, ast.While)]
+    if len(loops) != 2:
+        raise AnalysisError("B20: _get_eq_descendant no longer has one loop per side")
+    for l in loops:
+        sides = _side_of(f, l.test, seeds, attr_sides)
+        for st in l.body:
+            sides |= _side_of(f, st, seeds, attr_sides)
+        if sides == {1} or sides == {2}:
+            ctx.ok("B20", f"the loop over side {sorted(sides)[0]} reads only that side's rule, table and node list")
+        elif sides == {1, 2}:
+            mixed = [t for t in (l.test.values if isinstance(l.test, ast.BoolOp) else [l.test]) if len(_side_of(f, t, seeds, attr_sides)) == 2]
+            ctx.violation("B20", l, f"a loop of _get_eq_descendant mixes the two sides (`{norm(mixed[0] if mixed else l.test)[:70]}`): the walk down one specification's equivalence chain is "
+                          "stopped (or not stopped) by what was met in the other, so a specification compared with itself is cut short on one side only")
+        else:
+            raise AnalysisError("B20: cannot tell which side a loop of _get_eq_descendant belongs to")
 
 
 # ------------------------------------------------------------------ B8 two-sided acceptance in the second search
